@@ -3,6 +3,7 @@ package sym
 import (
 	"fmt"
 	"go/types"
+	"strings"
 )
 
 // A small file-system model with crash semantics (DESIGN A.7):
@@ -136,6 +137,35 @@ func registerOSIntrinsics(P *Program) {
 		}
 		delete(fs.files, path)
 		return Iface{}
+	}
+	// os.Stat / os.Lstat: only existence is modelled (the FileInfo of an existing file is nil;
+	// a target that inspects it is outside the model). os.IsNotExist recognises the model's
+	// "no such file" errors.
+	stat := func(fr *frame, args []Value) Value {
+		m := fr.m
+		path := m.concStr(args[0], "stat path")
+		f := m.vfs().files[path]
+		if f == nil || !f.exists {
+			return Tuple{Iface{}, m.osErr("stat " + path + ": no such file or directory")}
+		}
+		return Tuple{Iface{}, Iface{}}
+	}
+	in["os.Stat"] = stat
+	in["os.Lstat"] = stat
+	in["os.IsNotExist"] = func(fr *frame, args []Value) Value {
+		m := fr.m
+		e, ok := args[0].(Iface)
+		if !ok || e.T == nil {
+			return m.tb.False()
+		}
+		if p, ok := e.V.(*Value); ok && p != nil {
+			if st, ok := (*p).(Struct); ok && len(st) == 1 {
+				if msg, ok := st[0].(Str); ok && msg.B == nil {
+					return m.tb.Bool(strings.Contains(msg.S, "no such file"))
+				}
+			}
+		}
+		return m.tb.False()
 	}
 	readFile := func(fr *frame, args []Value) Value {
 		m := fr.m
